@@ -52,9 +52,20 @@ def analyse_class(repo: Repo, ci: ClassInfo):
         meta[k.value] = v
     # reader
     ups = [p for p in paths_of(un) if p.end[0] == "return"]
-    if len(ups) != 1:
+    if not ups or len(ups) > 8:
         return [("R5", "unknown", un.lineno, "", f"{ci.name}.__tensor_unflatten__ has {len(ups)} return paths", "")]
-    up = ups[0]
+    seen = set()
+    for up in ups:  # every way of rebuilding must invert the writer
+        for r in _analyse_reader(repo, ci, fl, un, up, inner, meta):
+            k = (r[0], r[1], r[3], r[4])
+            if k not in seen:
+                seen.add(k)
+                res.append(r)
+    return res
+
+
+def _analyse_reader(repo, ci, fl, un, up, inner, meta):
+    res = []
     uparams = positional_params(un)
     it_name, meta_name = uparams[0], uparams[1]
     ret = up.end[1]
@@ -96,9 +107,16 @@ def analyse_class(repo: Repo, ci: ClassInfo):
             continue
         # meta parameters
         key = None
+        keys = []
         for n in ast.walk(val):
             if isinstance(n, ast.Subscript) and U(n.value) == meta_name and isinstance(n.slice, ast.Constant):
                 key = n.slice.value
+                keys.append(key)
+        if len(set(keys)) > 1:
+            read_meta.update(keys)
+            conds = " & ".join(up.cond_texts())[:120]
+            res.append(("R4", "bad", un.lineno, f"{ci.name}.{pname} codec", f"{ci.name}: on the path [{conds}] constructor parameter `{pname}` is computed from several meta entries {sorted(set(keys))} (`{txt[:80]}`): not the value that was written", "every tensor taking that path: the field changes across a flatten/unflatten (or state_dict) round trip"))
+            continue
         if key is None:
             if pname in meta or "_" + pname in inner:
                 res.append(("R5", "bad", un.lineno, f"{ci.name}.{pname} not read", f"{ci.name}: constructor parameter `{pname}` = `{txt[:50]}` is not read from the flattened form", "every round trip loses this field"))
